@@ -282,6 +282,9 @@ static std::vector<Ty> derive(const std::vector<Ty>& from, bool full) {
         out.push_back({"buf<" + t.text + ", 2ul>", t.classes});
         out.push_back({"ch<" + t.text + ", (char)65, -1, 10l>", t.classes});
         out.push_back({t.text + " [3]", t.classes});
+        // the extractor allows blanks between a template name and its '<'
+        out.push_back({"tmpl <" + t.text + ">", t.classes});
+        out.push_back({"ns::tmpl  <" + t.text + "> const&", t.classes});
     }
     if (full)
         for (size_t i = 0; i < from.size(); ++i)
